@@ -108,10 +108,9 @@ impl VotingBuilder {
                 set.add_move(req_signature);
             }
 
-            if let Some(ScriptWitnessType::NativeScriptWitness(script_source)) =
-                &voter_votes.script_witness
-            {
-                if let Some(required_signers) = script_source.required_signers() {
+            // the signers a native or a Plutus script source declares (as the other builders do)
+            if let Some(script_witness) = &voter_votes.script_witness {
+                if let Some(required_signers) = script_witness.get_required_signers() {
                     set.extend_move(required_signers);
                 }
             }
